@@ -171,16 +171,122 @@ def _run_variant(args):
     return vid, kind, 'silent' if ok else 'alarmed', '', detail
 
 
+def _patch_overrides(patch_path, repo):
+    """apply a unified diff to copies of the files it touches (in a temporary directory that is removed again)
+    -> {relative path: patched source} or None if it does not apply to the current tree"""
+    import re
+    import shutil
+    import subprocess
+    import tempfile
+    text = open(patch_path, encoding='utf-8', errors='replace').read()
+    files = sorted(set(re.findall(r'^\+\+\+ b/(\S+)', text, flags=re.M)) | set(re.findall(r'^--- a/(\S+)', text, flags=re.M)))
+    tmp = tempfile.mkdtemp(prefix='algopy-variant-')
+    try:
+        for rel in files:
+            src = os.path.join(repo, rel)
+            if os.path.exists(src):
+                os.makedirs(os.path.dirname(os.path.join(tmp, rel)), exist_ok=True)
+                shutil.copy(src, os.path.join(tmp, rel))
+        r = subprocess.run(['git', 'apply', '--unsafe-paths', os.path.abspath(patch_path)], cwd=tmp, capture_output=True, text=True,
+                           env=dict(os.environ, GIT_CEILING_DIRECTORIES=tmp, GIT_DIR=os.path.join(tmp, '.nogit')))
+        if r.returncode != 0:
+            return None
+        out = {}
+        for rel in files:
+            pth = os.path.join(tmp, rel)
+            if os.path.exists(pth):
+                out[rel] = open(pth, encoding='utf-8').read()
+        return out
+    finally:
+        shutil.rmtree(tmp, ignore_errors=True)
+
+
+def _run_patch_variant(args):
+    vid, kind, patch, props = args
+    from .runner import Ctx, registry
+    from .model import REPO
+    ov = _patch_overrides(patch, REPO)
+    if ov is None:
+        return vid, kind, 'skipped', 'patch does not apply to the current tree', {}
+    from .model import SCOPE
+    scope = {rel for rel, _ in SCOPE}
+    ov = {k: v for k, v in ov.items() if k in scope}
+    reg = registry()
+    detail = {}
+    try:
+        ctx = Ctx(overrides=ov)
+    except Exception as e:
+        return vid, kind, 'error', 'variant does not parse: %s' % e, {}
+    for p in props:
+        if p not in reg:
+            continue
+        findings, unknowns, rules = 0, 0, []
+        for rule in reg[p]['rules']:
+            try:
+                r = rule(ctx)
+            except Exception as e:
+                unknowns += 1
+                rules.append('%s: %s' % (type(e).__name__, str(e)[:60]))
+                continue
+            v = [f for f in r.findings if f.severity == 'VIOLATION']
+            findings += len(v)
+            unknowns += len(r.unknowns)
+            if v:
+                rules.append(r.rule)
+        detail[p] = {'violations': findings, 'unknown': unknowns, 'rules': rules}
+    if kind == 'break':
+        ok = any(d['violations'] > 0 for d in detail.values())
+        return vid, kind, 'killed' if ok else 'survived', '', detail
+    ok = all(d['violations'] == 0 and d['unknown'] == 0 for d in detail.values())
+    return vid, kind, 'silent' if ok else 'alarmed', '', detail
+
+
+# seeded changes that are (honestly) not decided by the check of their target property: reason
+UNDECIDED_SEEDS = {'C01_d': 'wrong multiplication count in a while loop: E2 does not model while loops (exit 2), the count is invisible to the grading'}
+# neutral patches written against an older commit that fire there for a true reason
+NEUTRAL_SKIP = {'N7/patch3.diff': 'written before fix 02c76d5; on that tree the check reports the real _eigh_pullback defect'}
+
+
+def patch_variants(prop):
+    """stored sub-agent patches as self-test variants: the seeds that the matrix says this property's check catches
+    (breaking) and every behaviour-preserving refactoring (neutral)"""
+    import glob
+    import json
+    verif = os.path.dirname(os.path.dirname(os.path.abspath(__file__)))
+    out = []
+    try:
+        mx = json.load(open(os.path.join(verif, 'seeded', 'matrix.json')))
+    except Exception:
+        mx = {}
+    for sid in sorted(os.listdir(os.path.join(verif, 'seeded'))):
+        d = os.path.join(verif, 'seeded', sid)
+        if not os.path.isdir(d) or sid in UNDECIDED_SEEDS:
+            continue
+        res = mx.get(sid, {})
+        if isinstance(res.get(prop), list) and res[prop][0] == 1:
+            out.append(('seed:' + sid, 'break', os.path.join(d, 'patch.diff'), [prop]))
+    for pth in sorted(glob.glob(os.path.join(verif, 'neutral', '*', 'patch*.diff'))):
+        name = '/'.join(pth.split('/')[-2:])
+        if name in NEUTRAL_SKIP:
+            continue
+        out.append(('neutral:' + name, 'neutral', pth, [prop]))
+    return out
+
+
 def selftest(prop, tier, jobs=16):
     """thorough tier only: run every variant that names `prop`"""
     if tier != 'thorough':
         return None
     todo = [(v, [prop]) for v in TEXT if prop in v[2]]
-    if not todo:
+    ptodo = patch_variants(prop)
+    if not todo and not ptodo:
         return {'variants': 0}
-    out = {'variants': len(todo), 'killed': 0, 'survived': [], 'silent': 0, 'alarmed': [], 'skipped': [], 'failed': [], 'detail': {}}
-    with ProcessPoolExecutor(max_workers=min(jobs, len(todo))) as ex:
-        for vid, kind, status, why, detail in ex.map(_run_variant, todo):
+    out = {'variants': len(todo) + len(ptodo), 'text_variants': len(todo), 'seed_patches': sum(1 for x in ptodo if x[1] == 'break'),
+           'neutral_patches': sum(1 for x in ptodo if x[1] == 'neutral'),
+           'killed': 0, 'survived': [], 'silent': 0, 'alarmed': [], 'skipped': [], 'failed': [], 'detail': {}}
+    with ProcessPoolExecutor(max_workers=jobs) as ex:
+        import itertools
+        for vid, kind, status, why, detail in itertools.chain(ex.map(_run_variant, todo), ex.map(_run_patch_variant, ptodo)):
             out['detail'][vid] = {'kind': kind, 'status': status, 'by': detail}
             if status == 'killed':
                 out['killed'] += 1
